@@ -1,7 +1,7 @@
 """Free-string harnesses: every string of a given length over all of Unicode (C06, C07a, C08, C16, C19)."""
 from TexSoup import TexSoup
-from TexSoup.category import categorize
-from TexSoup.tokens import tokenize
+import TexSoup.category as _cat
+import TexSoup.tokens as _tok
 from TexSoup.utils import CC, TC
 #include oracles.py
 
@@ -104,7 +104,7 @@ def c08_free(n, which):
 def c19_categorize(n):
     """direct mode: the real categorize on n free characters"""
     s = SX.fresh(n)
-    toks = list(categorize(s))
+    toks = list(_cat.categorize(s))
     SX.check(len(toks) == n, 'C19:one-token-per-char')
     for i, t in enumerate(toks):
         SX.check(SX.raw(t.text) == s[i] and len(SX.raw(t.text)) == 1 and SX.same_char(SX.raw(t.text), s[i]),
@@ -117,7 +117,7 @@ def c19_categorize(n):
 def c19_tokenize(n):
     s = SX.fresh(n)
     try:
-        toks = list(tokenize(categorize(s)))
+        toks = list(_tok.tokenize(_cat.categorize(s)))
     except Exception as e:
         SX.check(False, 'C19:tokenizer-raises:' + type(e).__name__, lambda: {'input': s, 'sig': exc_sig(e)})
         return ('raises', type(e).__name__)
